@@ -311,6 +311,7 @@ def main():
       obligations=n_obl - known_obls, discharged=n_dis,
       obligations_matching_known_findings=known_obls,
       clauses=len(clauses), clauses_discharged=sum(1 for c in clauses.values() if c['status'] == 'discharged'),
+      slowest_obligations=[dict(id=o['id'], seconds=o['seconds'], backend=o.get('backend')) for o in sorted((o for u in results for o in u['obligations']), key=lambda o: -o['seconds'])[:8]],
       units=len(units) + len(closure_units), units_of_the_property=len(units), callee_contract_units_checked_by_closure=[u[1] for u in closure_units], units_undecided=len([u for u in results if u['undecided']]),
       checker_cmd='./verif.sh check %s --tier %s' % (prop, tier),
       backends=dict(z3=n_obl, cvc5_crosschecked=sum(1 for u in results for o in u['obligations'] if o.get('cvc5') == 'unsat'),
